@@ -119,10 +119,23 @@ class ProgGen:
                 out.append(["fld", n, "y"])
         return out
 
+    # Evaluation order is the VM's business: an expression has at most ONE sub-expression that can
+    # have an effect (a call) or can fail (a dynamic index); every other operand is generated "pure".
+    # Likewise both operands of && and || beyond the first comparison's left side are pure, so that
+    # an implementation that short-circuits them computes the same thing.
+    _pure = 0
+
+    def pure(self, fn, *a):
+        self._pure += 1
+        try:
+            return fn(*a)
+        finally:
+            self._pure -= 1
+
     def idx_expr(self, env, size):
         r = self.rng
         dyn = [n for n in self.idxvars if n in env]
-        if dyn and r.random() < 0.5:
+        if dyn and not self._pure and r.random() < 0.5:
             self.ix_sizes.append(size)
             return ["var", r.choice(dyn)]
         return ["lit", r.randrange(size)]
@@ -142,14 +155,14 @@ class ProgGen:
                 return ["idx", n, self.idx_expr(env, t[2])]
             if "gm" in env:
                 return ["idx2", "gm", ["lit", r.randrange(2)], self.idx_expr(env, 3)]
-        if c < 0.58 and self.allow_calls and self.helpers:
+        if c < 0.58 and self.allow_calls and self.helpers and not self._pure:
             h = r.choice(self.helpers)
             self.made_call = True
             if r.random() < 0.4:
                 return ["call", h["name"], [["lit", r.randint(0, 5)] for _ in h["params"]]]  # literal-only call site
-            return ["call", h["name"], [self.int_expr(env, 2) for _ in h["params"]]]
+            return ["call", h["name"], [self.pure(self.int_expr, env, 2) for _ in h["params"]]]
         op = r.choice(["+", "-", "*", "+", "-"])
-        b = self.int_expr(env, depth + 1)
+        b = self.pure(self.int_expr, env, depth + 1)
         if op == "*":
             b = ["lit", r.choice([0, 1, 2, 3])]
         return ["bin", op, self.int_expr(env, depth + 1), b]
@@ -170,20 +183,20 @@ class ProgGen:
         if c < 0.56 and "gx" in env:
             return ["idx2", "gx", ["lit", r.randrange(4)], self.idx_expr(env, 4)]
         op = r.choice(["+", "-", "*"])
-        b = self.float_expr(env, depth + 1)
+        b = self.pure(self.float_expr, env, depth + 1)
         if op == "*":
             b = ["lit", r.choice([0.5, 1.5, 2.5, 0.25])]
         return ["bin", op, self.float_expr(env, depth + 1), b]
 
     def cond(self, env):
         r = self.rng
-        c = ["bin", r.choice(CMP), self.int_expr(env, 1), self.int_expr(env, 1)]
+        c = ["bin", r.choice(CMP), self.int_expr(env, 1), self.pure(self.int_expr, env, 1)]
         if r.random() < 0.25:
             c = [
                 "bin",
                 r.choice(["&&", "||"]),
                 c,
-                ["bin", r.choice(CMP), self.int_expr(env, 1), ["lit", r.randint(0, 9)]],
+                ["bin", r.choice(CMP), self.pure(self.int_expr, env, 1), ["lit", r.randint(0, 9)]],
             ]
         return c
 
@@ -227,7 +240,8 @@ class ProgGen:
             c = r.random()
             if c < 0.45:
                 lv, et = self.lvalue(env)
-                e = self.int_expr(env) if et == "int" else self.float_expr(env)
+                gen_e = self.int_expr if et == "int" else self.float_expr
+                e = self.pure(gen_e, env) if '"var"' in core.canon(lv[2:]) else gen_e(env)
                 opk = r.choice(["=", "=", "=", "+=", "-=", "*="])
                 if opk == "*=":
                     e = ["lit", r.choice([0, 1, 2]) if et == "int" else r.choice([0.5, 2.5, 1.5])]
@@ -254,7 +268,9 @@ class ProgGen:
                 vecs = [(n_, t) for n_, t in env.items() if t[0] == "vec"]
                 n_, t = r.choice(vecs)
                 same = [m_ for m_, u in vecs if u == t]
-                scal = (lambda: self.int_expr(env, 1)) if t[1] == "int" else (lambda: self.float_expr(env, 1))
+                # several components in one constructor: all of them pure (their order is not fixed)
+                scal = ((lambda: self.pure(self.int_expr, env, 1)) if t[1] == "int"
+                        else (lambda: self.pure(self.float_expr, env, 1)))
                 k = r.random()
                 if k < 0.35:
                     self.lc += 1
